@@ -35,7 +35,7 @@ func (c10) Meta() fw.Meta {
 			"values are chosen so that floating-point addition is exact: the property is about WHICH values are added, not about association order",
 			"directory names contain no dots (items are dotted paths)",
 		},
-		Obligations: []string{"function_sums", "cli_sums", "slots_summed", "slot_all_nan", "slot_single_contributor", "first_file_hole", "single_file_item", "layout_mismatch_rejected", "no_match_item", "no_match_file", "unclean_base_spelling", "single_archive_selection", "edge_window", "file_pattern_with_directory", "remote_sums", "slow_first_item_runs", "remote_sums_with_concurrent_clients", "server_socket_writes_delayed", "concurrent_noise_requests_served"},
+		Obligations: []string{"function_sums", "cli_sums", "slots_summed", "slot_all_nan", "slot_single_contributor", "first_file_hole", "single_file_item", "layout_mismatch_rejected", "no_match_item", "no_match_file", "unclean_base_spelling", "single_archive_selection", "edge_window", "file_pattern_with_directory", "remote_sums", "slow_first_item_runs", "remote_sums_with_concurrent_clients", "server_socket_writes_delayed", "concurrent_noise_requests_served", "remote_sums_of_long_archives", "sums_after_failed_reads"},
 		Workers:     12,
 	}
 }
@@ -210,6 +210,11 @@ func dotted(dir string) string { return strings.ReplaceAll(dir, string(filepath.
 
 func (c10) Run(c *fw.Ctx) {
 	r := c.Rng
+	if c.Env.State["c10_reader_hung"] != nil {
+		// an earlier case of this worker convicted the shared read path of not returning: every further sum would block
+		c.Count("cases_skipped_after_hang", 1)
+		return
+	}
 	base := filepath.Join(c.TmpDir(), "tree")
 	l := cliLayout(r)
 
@@ -329,6 +334,89 @@ func (c10) Run(c *fw.Ctx) {
 				}
 			}
 		})
+		if c.Index%4 == 0 && !c.Violated() {
+			// long archives (responses of tens of kilobytes, written to the socket in several delayed writes) summed
+			// while other clients fetch the very files being summed
+			bl := model.Layout{Archs: []model.Arch{{Step: 1, Points: uint32(2500 + r.Intn(2000))}, {Step: 60, Points: uint32(200 + r.Intn(200))}}, Method: l.Method, Xff: 0.5}
+			bnow := vnow
+			if bnow < bl.MaxRet()+2*bl.MaxStep() {
+				bnow = bl.MaxRet() + 2*bl.MaxStep() + 1000
+			}
+			bt := sumTree{Base: vt.Base, L: bl, Items: map[string][]string{"big": nil}, Now: bnow}
+			var bnoise []string
+			for _, fn := range []string{"x.wsp", "y.wsp", "z.wsp"} {
+				writeFixture(filepath.Join(vt.Base, "big", fn), bl, genContent(r, bl, bnow, 0.8), bnow)
+				bt.Items["big"] = append(bt.Items["big"], fn)
+				bnoise = append(bnoise, filepath.Join(name, "big", fn))
+			}
+			want, _ := expectedSum(bt, "big", -1, 0, bnow, bnow, c)
+			withServerNoise(c, u, bnoise, func() {
+				for q := 0; q < 4 && !c.Violated(); q++ {
+					_, got, err := wcmd.VerifSumWhisperFile(u, name+".big", "*.wsp", -1, 0, u32(bnow), u32(bnow))
+					c.Count("remote_sums", 1)
+					c.Count("remote_sums_of_long_archives", 1)
+					det := fw.J{"item": "big", "layout": bl.String(), "via": "server, with concurrent clients"}
+					if err != nil {
+						c.Violationf("remote-sum-error", det, "sum of long archives through the server failed: %v", err)
+						break
+					}
+					for ai := range bl.Archs {
+						if msg := seriesEqual(got[ai], want[ai]); msg != "" {
+							c.Violationf("sum-differs", det, "remote sum of long archives, archive %d differs: %s", ai, msg)
+							break
+						}
+					}
+				}
+			})
+			os.RemoveAll(filepath.Join(vt.Base, "big"))
+		}
+	}
+	// failing reads (an archive id no file has) must not wear the reader out: after many of them a valid sum still
+	// returns, with the same result as before
+	if c.Index%3 == 1 && !c.Violated() {
+		var first string
+		for d := range vt.Items {
+			if first == "" || d < first {
+				first = d
+			}
+		}
+		done := make(chan string, 1)
+		go func() {
+			_, before, err := wcmd.VerifSumWhisperFile(vt.Base, dotted(first), "*.wsp", -1, 0, u32(vnow), u32(vnow))
+			if err != nil {
+				done <- "valid sum failed: " + err.Error()
+				return
+			}
+			for q := 0; q < 8; q++ {
+				if _, _, err := wcmd.VerifSumWhisperFile(vt.Base, dotted(first), "*.wsp", len(l.Archs)+1+q, 0, u32(vnow), u32(vnow)); err == nil {
+					done <- "a sum naming an archive no file has succeeded"
+					return
+				}
+			}
+			_, after, err := wcmd.VerifSumWhisperFile(vt.Base, dotted(first), "*.wsp", -1, 0, u32(vnow), u32(vnow))
+			if err != nil {
+				done <- "valid sum failed after failing ones: " + err.Error()
+				return
+			}
+			for ai := range l.Archs {
+				if msg := seriesEqual(after[ai], before[ai]); msg != "" {
+					done <- "the valid sum changed after failing ones: " + msg
+					return
+				}
+			}
+			done <- ""
+		}()
+		select {
+		case msg := <-done:
+			c.Count("sums_after_failed_reads", 1)
+			if msg != "" {
+				c.Violationf("sum-after-failed-reads", fw.J{"item": first, "what": msg}, "%s", msg)
+			}
+		case <-time.After(90 * time.Second):
+			c.Violationf("sum-hangs-after-failed-reads", fw.J{"item": first}, "after sums that failed (archive id out of range) a valid sum of the same item did not return within 90 s")
+			c.Env.State["c10_reader_hung"] = true
+			return
+		}
 	}
 	// nothing matched => not-exist
 	if _, _, err := wcmd.VerifSumWhisperFile(vt.Base, "grpA", "zz*.wsp", -1, 0, u32(vnow), u32(vnow)); err == nil || !os.IsNotExist(err) {
